@@ -450,6 +450,11 @@ fn inputs(seed: u64, idx: u64) -> (Vec<String>, bool) {
     let o = GenOpts { modules: (1, 3), assigns: (1, 6), max_depth: 2, max_comps: 4, ..GenOpts::default() };
     let set = gen::random_set(seed, 2000, idx, &o);
     let mut texts = set.render_each();
+    // every eleventh input: nothing to generate - a module without assignments, or with an IMPORTS clause only. compile() still
+    // delivers what compile_to_string() returns (for the rasn backend that is a line break), and still reports an unwritable place
+    if idx % 11 == 7 {
+        return (vec![if rng.chance(1, 2) { "Me DEFINITIONS AUTOMATIC TAGS ::= BEGIN END\n".to_string() } else { "Me DEFINITIONS ::= BEGIN\nEXPORTS ALL;\nEND\n".to_string() }], false);
+    }
     // every third input is malformed (one token deleted or garbage inserted) so that compilation fails
     let malformed = idx % 3 == 2;
     if malformed {
@@ -464,7 +469,7 @@ fn inputs(seed: u64, idx: u64) -> (Vec<String>, bool) {
 pub fn run(ctx: &Ctx) -> Report {
     let mut rep = Report::new(
         "fault_enumeration",
-        "library: grammar-G module sets (valid, and every third one malformed) x both backends x sources as literals / file paths / mixed x destination state {file absent, existing shorter file, existing longer file, existing file of exactly the new text's length that differs in one character (also as generated.<ext> inside a directory), missing parent directory, parent is a regular file, /dev/full, directory whose generated.<ext> is itself a directory, empty directory, directory with a longer generated.<ext>, stdout, no output} — each case runs compile() in a child process (same environment as the compile_to_string() reference taken in that very process, rustfmt unavailable) with file-system snapshots of the destination tree before and after and captured stdout. CLI: the real rasn_compiler_cli built from /repo with feature cli, on directory trees (nested, .asn and .asn1, decoy files, in a third of the trees the same file name in several directories) or -m lists x {-o PATH, --stdout, --no-output, default path} x both backends, compared with the library on the same file set. asn1!: 18 (quick) / 288 (thorough) literals (whole modules, assignments without header - which the macro wraps -, truncated texts, texts with quotes / backslashes / non-ASCII) each as `mod mac_k { asn1!(..) }` next to `mod lib_k { include!(library output) }` in one crate expanded by the real rustc (-Zunpretty=expanded, proc macro built from /repo): the macro panics iff the library returns Err, and the expanded items of the two modules are equal (use declarations as a set). Non-trivial = child finished and all observations judged; distinct by (input, backend, destination state).",
+        "library: grammar-G module sets (valid, every third one malformed, every eleventh a module without assignments) x both backends x sources as literals / file paths / mixed x destination state {file absent, existing shorter file, existing longer file, existing file of exactly the new text's length that differs in one character (also as generated.<ext> inside a directory), missing parent directory, parent is a regular file, /dev/full, directory whose generated.<ext> is itself a directory, empty directory, directory with a longer generated.<ext>, stdout, no output} — each case runs compile() in a child process (same environment as the compile_to_string() reference taken in that very process, rustfmt unavailable) with file-system snapshots of the destination tree before and after and captured stdout. CLI: the real rasn_compiler_cli built from /repo with feature cli, on directory trees (nested, .asn and .asn1, decoy files, in a third of the trees the same file name in several directories) or -m lists x {-o PATH, --stdout, --no-output, default path} x both backends, compared with the library on the same file set. asn1!: 18 (quick) / 288 (thorough) literals (whole modules, assignments without header - which the macro wraps -, truncated texts, texts with quotes / backslashes / non-ASCII) each as `mod mac_k { asn1!(..) }` next to `mod lib_k { include!(library output) }` in one crate expanded by the real rustc (-Zunpretty=expanded, proc macro built from /repo): the macro panics iff the library returns Err, and the expanded items of the two modules are equal (use declarations as a set). Non-trivial = child finished and all observations judged; distinct by (input, backend, destination state).",
     );
     rep.must_observe = vec!["library_cases".into(), "cli_invocations".into(), "cli_invocations[-d .]".into(), "cli_invocations[-d .DOTNAME]".into(), "cli_invocations[--stdout on /dev/full]".into(), "library_cases[stdout:/dev/full]".into(), "library_cases[failed-compilation]".into(), "library_cases[unwritable-destination]".into(), "macro_expansions_compared".into(), "macro_failures_matching_library_err".into(), "cli_trees_with_equal_file_names".into()];
     rep.assumptions = vec!["we run as root: unwritable destinations are produced by ENOTDIR / ENOSPC (/dev/full) / EISDIR, not by mode bits".into(), "asn1!: the wrapping rule (no BEGIN in the literal => dummy AUTOMATIC TAGS module) is replicated by the harness; expansion observed with the nightly toolchain's -Zunpretty=expanded".into()];
